@@ -47,8 +47,33 @@ def self_attr_accesses(fn):
 METHODS = {}      # the methods of Environment (filled by run)
 
 
+def lock_managers():
+    """Methods of Environment decorated with @contextmanager every `yield` of which lies inside `with <the lock>`: entering one
+    holds the lock for the body of the `with` statement."""
+    out = {}
+    for name, m in METHODS.items():
+        if not any('contextmanager' in unparse(d) for d in m.decorator_list):
+            continue
+        ys = [n for n in ast.walk(m) if isinstance(n, ast.Yield)]
+        if ys and all(any(any(unparse(it.context_expr) == LOCK for it in w.items) for w in enclosing_withs(y, m)) for y in ys):
+            out[name] = (m, ys)
+    return out
+
+
+def entered_managers(node, fn):
+    mgrs = lock_managers()
+    out = []
+    for w in enclosing_withs(node, fn):
+        for it in w.items:
+            e = unparse(it.context_expr)
+            if e.startswith('self.') and e.endswith('()') and e[5:-2] in mgrs:
+                out.append(mgrs[e[5:-2]])
+    return out
+
+
 def holds_lock(node, fn):
-    return any(any(unparse(it.context_expr) == LOCK for it in w.items) for w in enclosing_withs(node, fn))
+    return any(any(unparse(it.context_expr) == LOCK for it in w.items) for w in enclosing_withs(node, fn)) \
+        or bool(entered_managers(node, fn))
 
 
 def run(repo, res):
@@ -509,7 +534,14 @@ def starter_joined_before(call, fn):
         helper = METHODS.get(f[5:]) if f.startswith('self.') else None
         return helper is not None and depth < 3 and any(is_join(x, depth + 1) for x in calls_in(helper))
     joins = [c for c in calls_in(fn) if is_join(c)]
-    return any((j.lineno, j.col_offset) < (call.lineno, call.col_offset) and holds_lock(j, fn) for j in joins)
+    if any((j.lineno, j.col_offset) < (call.lineno, call.col_offset) and holds_lock(j, fn) for j in joins):
+        return True
+    # ... or the call sits in the body of `with self.<manager>():` whose manager joins the starter under the lock before it yields
+    for m, ys in entered_managers(call, fn):
+        first = min((y.lineno, y.col_offset) for y in ys)
+        if any(is_join(c) and (c.lineno, c.col_offset) < first and holds_lock(c, m) for c in calls_in(m)):
+            return True
+    return False
 
 
 def check_then_act(methods, attr, accesses):
